@@ -327,8 +327,48 @@ def state_roundtrips(w):
                         fp = (f"same-process|root={rname}|caching={'on' if w.flag else 'off'}|memo={memo}|"
                               f"attrs={attr_kinds(w)}|{bad}")
                         out.append((fp, {"root": rname, "protocol": proto, "loader": loader, "via_file": via_file}))
+    if not out and w.u and len(w.v) >= 2:
+        bad = detached_check(w)
+        if bad:
+            memo = "warm" if any(memo_is_warm(v) for v in w.v) else "cold"
+            out.append((f"same-process|root=universe|caching={'on' if w.flag else 'off'}|memo={memo}|"
+                        f"attrs={attr_kinds(w)}|{bad}", {"root": "universe", "protocol": 4, "loader": "pickle",
+                                                       "via_file": False, "detached": True}))
     Vertex.NEIGHBOR_CACHING = w.flag
     return out
+
+
+def detached_check(w):
+    """
+    The copy is DETACHED: with the original still alive in the same process (same uids on both sides),
+    both warm, the copy is edited first and the original second (one new link each between their first and
+    last vertex); each side must then answer for its own links.  Last thing done to a state.
+    """
+    Vertex.NEIGHBOR_CACHING = w.flag
+    try:
+        copy_ = pickle.loads(nrpickler.dumps(w.u[0], protocol=4))
+    except Exception:  # noqa: BLE001
+        return None                      # the round-trip legs report this
+    cv = copy_.vertices
+    ov = w.u[0].vertices
+    if len(cv) != len(ov) or len(cv) < 2:
+        return None
+    kw = dict(direction_sensitive=helpers.DIR_SENS_FORWARD, unknown_handling=helpers.LNK_UNKNOWN_NEIGHBOR)
+    for vs in (ov, cv):
+        for v in vs:
+            helpers.neighbors(v, **kw)                      # warm (a no-op with caching off)
+    DirectedEdge(cv[0], cv[-1])
+    DirectedEdge(ov[0], ov[-1])
+    for side, vs in (("copy", cv), ("original", ov)):
+        got = helpers.neighbors(vs[0], **kw)
+        Vertex.NEIGHBOR_CACHING = False
+        want = helpers.neighbors(vs[0], **kw)
+        Vertex.NEIGHBOR_CACHING = w.flag
+        if [id(x) for x in got] != [id(x) for x in want]:
+            return f"after-editing-copy-then-original-the-{side}-answers-stale"
+        if not any(x is vs[-1] for x in got):
+            return f"after-editing-copy-then-original-the-{side}-misses-its-new-link"
+    return None
 
 
 N_RT = sum(1 for proto in (0, 2, 4, 5) for loader in (0, 1)) + 1
@@ -349,6 +389,13 @@ def replay(rec, verbose=False):
     if rec.get("kind") == "fresh":
         bad, _ = fresh_leg([tuple(tuple(o) for o in rec["history"])], rec["pool"], verbose=verbose)
         return bool(bad)
+    if isinstance(rec.get("detail"), dict) and rec["detail"].get("detached"):
+        s = Sys(rec["pool"])
+        w = engine_h.build(s, [tuple(op) for op in rec["history"]])
+        bad = detached_check(w)
+        if verbose:
+            print("  history:", rec["history"], " detached-copy leg ->", bad)
+        return bad is not None
     s = Sys(rec["pool"])
     w = s.initial()
     hist = [tuple(op) for op in rec["history"]]
